@@ -57,6 +57,22 @@ def cases(ctx):
                     yield {"version": version, "fail19": list(fail19), "fault_class": FAULT_CLASSES[count % len(FAULT_CLASSES)],
                            "steps": PRE + [["rx", line + "\n"] for line in combo]}
     ctx.exhaustive[f"histories-len<={max_len}-x-fault-subsets"] = count
+    # every message kind of the active protocol from an unknown node (all internal / stream / presentation / value type
+    # numbers incl. the ones only the newest protocol has and out-of-range ones), twice, then after it presented itself:
+    # WHICH kinds are rejected for a missing node is the implementation's business, but every such rejection must ask
+    from .. import spec
+
+    for version in VERSIONS:
+        proto = spec.pmap(version)
+        kinds = [f"{U1};255;3;{a};{t};{p}" for t in range(-1, spec.INTERNAL_MAX[proto] + 4) for a, p in ((0, "1"), (1, ""))]
+        kinds += [f"{U1};255;4;0;{t};x" for t in range(0, 8)]
+        kinds += [f"{U1};{c};{cmd};0;{t};v" for cmd in (1, 2) for c in (0, 254) for t in (0, 2, 56, 99)]
+        kinds += [f"{U1};3;0;0;{t};d" for t in (0, 6, 39, 99)]
+        for i, kind in enumerate(kinds):
+            if ctx.mine():
+                other = kinds[(i * 7 + 3) % len(kinds)].replace(f"{U1};", f"{U2};", 1)
+                yield {"version": version, "steps": PRE + [["rx", x + "\n"] for x in (
+                    kind, kind, other, f"{U1};255;0;0;17;2.0", kind, kind)]}
     for i in range(ctx.pick(2000, 60000) // ctx.shard_count):
         version = VERSIONS[2 + i % 3] if i % 7 else VERSIONS[i % 2]
         length = rng.choice([5, 6, 7, 7, 100])
